@@ -39,6 +39,16 @@ pub fn verify_stark_proof<
     verifier_circuit_fri_params: Option<FriParams>,
 ) -> Result<()> {
     ensure!(proof_with_pis.public_inputs.len() == S::PUBLIC_INPUTS);
+    // The challenges are derived from the proof's own shape (Merkle path length, number of
+    // auxiliary openings), so the shape has to be checked before they are computed.
+    validate_proof_shape(
+        &stark,
+        &proof_with_pis.proof,
+        &proof_with_pis.public_inputs,
+        config,
+        0,
+        0,
+    )?;
     let mut challenger = Challenger::<F, C::Hasher>::new();
 
     let challenges = proof_with_pis.get_challenges(
@@ -230,6 +240,19 @@ where
     C: GenericConfig<D, F = F>,
     S: Stark<F, D>,
 {
+    // `recover_degree_bits` reads the length of the first Merkle path of the first query round.
+    let first_merkle_proof = proof
+        .opening_proof
+        .query_round_proofs
+        .first()
+        .and_then(|round| round.initial_trees_proof.evals_proofs.first())
+        .map(|(_, merkle_proof)| merkle_proof)
+        .ok_or_else(|| anyhow!("Missing FRI query round or initial Merkle proof"))?;
+    let lde_bits = config.fri_config.cap_height + first_merkle_proof.len();
+    ensure!(
+        config.fri_config.rate_bits <= lde_bits && lde_bits <= F::TWO_ADICITY,
+        "Merkle proof length is inconsistent with the configuration"
+    );
     let degree_bits = proof.recover_degree_bits(config);
 
     let StarkProof {
